@@ -292,6 +292,8 @@ func dispatch(job Job) *JobRes {
 		return crashJob(job)
 	case "window":
 		return windowJobRes(runWindow(job.Seed, job.Case, job.Tier))
+	case "cns":
+		return cnsJobRes(runCNS(job.Seed, job.Case, job.Tier))
 	case "ccrash":
 		mon.Off()
 		r := runCCrash(job.Seed, job.Case, job.Tier)
@@ -496,7 +498,15 @@ func propSpecs() map[string]PropSpec {
 	add(PropSpec{ID: "C01", Level: "fault_enumeration", Classes: []string{"crash"},
 		Rule: "each seeded workload (all mutating RPCs, three stability levels, multi-block writes, truncations, big-file removal) is recorded on the crash disk; EVERY prefix cut of its trace, one (thorough: three) lossy image(s) per cut with un-barriered writes lost/reordered, and cuts of sampled recovery runs (depth 2) are recovered by the real MakeNfs; the recovered tree must equal reference state S_j for some lo<=j<=hi, handles preserved, fsck clean, continuation workload in lock-step with S_j; distinct = distinct (recovered tree, on-disk state, lo, hi) with lo<hi (an operation in flight or an unstable suffix)",
 		Plan: func(tier string, seed uint64) []Job {
-			return append(withCrash(noJobs, "C01", 8, 150)(tier, seed), Job{Engine: "probe01", Profile: "C01", Seed: seed})
+			js := append(withCrash(noJobs, "C01", 8, 150)(tier, seed), Job{Engine: "probe01", Profile: "C01", Seed: seed})
+			n := 6
+			if tier == "thorough" {
+				n = 80
+			}
+			for i := 0; i < n; i++ {
+				js = append(js, Job{Engine: "cns", Profile: "C01", Seed: seed, Case: i})
+			}
+			return js
 		}})
 	add(PropSpec{ID: "C07", Level: "fault_enumeration", Classes: []string{"crash", "verf"},
 		Rule: "write-heavy workloads over several files mixing UNSTABLE/DATA_SYNC/FILE_SYNC, COMMIT and metadata operations, Unstable option on/off, clean restarts without flush; every prefix cut + lossy cuts recovered: state must be a reference prefix >= everything acknowledged stable (loss only as a suffix); every WRITE/COMMIT reply checked for committed level and verifier (constant per instance, different across instances); distinct as C01",
